@@ -71,10 +71,15 @@ def history_oracle(out, obs, spec, request, vals, calls, deps, needed, entry):
                                f"needed keys never finished: {sorted(map(repr, miss))}")
     # -- function level: against the AST (survives fusion/renaming)
     need_tags = {}
+    tag_refs = {}
+    body_of = {}
     for node in spec["nodes"]:
+        if node["kind"] == "task":
+            body_of[gg.K(node["key"])] = (node["tag"][0], node["tag"][1])
         if gg.K(node["key"]) in needed:
             for tg in gg.node_call_tags(node):
                 need_tags[tg] = gg.K(node["key"])
+            tag_refs.update(gg.node_call_refs(node))
     started, ended = {}, {}
     for i, e in enumerate(log):
         if e[0] == "start":
@@ -90,17 +95,14 @@ def history_oracle(out, obs, spec, request, vals, calls, deps, needed, entry):
                 return out.violate("wrong_arguments",
                                    f"task body {tg!r} received {e[2]!r} {e[3]!r}, expected {exp!r}",
                                    tag=repr(tg))
-            # every dependency's body must have ended before
-            key = need_tags[tg]
-            for d in deps[key]:
-                for node in spec["nodes"]:
-                    if gg.K(node["key"]) == d and node["kind"] in ("task",):
-                        dt = (node["tag"][0], node["tag"][1])
-                        if dt not in ended:
-                            return out.violate(
-                                "started_before_dependency_ended",
-                                f"body {tg!r} started before dependency body {dt!r} ended",
-                                tag=repr(tg))
+            # the body of every task this call site references must have ended before
+            for d in tag_refs.get(tg, ()):
+                dt = body_of.get(d)
+                if dt is not None and dt not in ended:
+                    return out.violate(
+                        "started_before_dependency_ended",
+                        f"body {tg!r} started before dependency body {dt!r} ended",
+                        tag=repr(tg))
         elif e[0] == "end":
             ended[e[1]] = i
     if complete:
